@@ -117,6 +117,20 @@ fn conc_check(r: &RunResult, cc: &ConcCase) -> Report {
   rep
 }
 
+/// utils::ready_set_go under retry: the action pushes an error into the hot source, and the
+/// retry re-subscribes the same ready_set_go observable from inside that error delivery -
+/// i.e. from inside the first subscription's action
+fn rsg_retry_strategy(ctx: &Ctx) -> BoxedStrategy<SeqCase> {
+  (super::diff::c03_rsg_strategy(ctx), 1usize..=3)
+    .prop_map(|(mut c, n)| {
+      let root = std::mem::replace(&mut c.case.root, Node::Src(0, Src::Empty));
+      c.case.root = Node::Un(Op::Retry(n), Box::new(root));
+      c.case.root.renumber();
+      c
+    })
+    .boxed()
+}
+
 /// re-entrancy on the library's own threads: callbacks that run on a timer / scheduler worker
 /// (debounce, delay, timeout, interval, observe_on) push items into the source, unsubscribe
 /// or subscribe again
@@ -297,6 +311,7 @@ pub fn properties() -> Vec<Property> {
       mk_sub("seq", (1500, 30_000), |ctx| seq_strategy(seq_cfg(ctx, false)), seq_check),
       mk_sub("reentrant", (1500, 30_000), |ctx| seq_strategy(seq_cfg(ctx, true)), seq_check),
       mk_sub("reentrant_groups", (1500, 30_000), group_strategy, group_check),
+      mk_sub("rsg_retry", (300, 6_000), rsg_retry_strategy, seq_check),
       mk_sub("reentrant_timed", (600, 12_000), |ctx| super::timed::timed_strategy(ctx, true), timed_reentrant_check),
       mk_sub("conc_unsub", (400, 8_000), conc::c05_plain_strategy, |_ctx, c: &conc::C05Case| conc_check(&run_cc(&c.cc, 100), &c.cc)),
       mk_sub("conc_sched", (300, 6_000), |ctx| conc::c09_strategy(ctx, false), |_ctx, c: &conc::C09Case| conc_check(&run_cc(&c.cc, 5_000), &c.cc)),
